@@ -476,6 +476,23 @@ int parsec_remote_dep_activate(parsec_execution_stream_t* es,
     remote_dep_mark_forwarded(es, remote_deps, remote_deps->root);
     assert((propagation_mask & remote_deps->outgoing_mask) == remote_deps->outgoing_mask);
 
+    /* When the outputs do not all go to the same set of processes, a process that took its place in the
+     * tree of an earlier output can end up below a relay that does not hold a later output it consumes
+     * (the relay then forwards the activation without that payload). Only the root holds every output:
+     * use the star topology for such tasks. Every participant rebuilds the same rank_bits, so all of them
+     * take the same decision. Bit 0 is the root itself (set only on the relays) and is ignored. */
+    int same_sets = 1, first_output = -1;
+    for( i = 0; propagation_mask >> i; i++ ) {
+        if( !((1U << i) & propagation_mask )) continue;
+        if( -1 == first_output ) { first_output = i; continue; }
+        for( array_index = 0; array_index < (parsec_remote_dep_context.max_nodes_number + 31) / 32; array_index++ ) {
+            uint32_t a = remote_deps->output[first_output].rank_bits[array_index];
+            uint32_t b = remote_deps->output[i].rank_bits[array_index];
+            if( 0 == array_index ) { a &= ~1U; b &= ~1U; }
+            if( a != b ) same_sets = 0;
+        }
+    }
+
     for( i = 0; propagation_mask >> i; i++ ) {
         if( !((1U << i) & propagation_mask )) continue;
         output = &remote_deps->output[i];
@@ -534,7 +551,8 @@ int parsec_remote_dep_activate(parsec_execution_stream_t* es,
                     remote_dep_bcast_child_permits = remote_dep_bcast_star_child(my_idx, idx);
                 } else {
 #ifdef PARSEC_DIST_COLLECTIVES
-                    remote_dep_bcast_child_permits = remote_dep_bcast_child(my_idx, idx);
+                    remote_dep_bcast_child_permits = same_sets ? remote_dep_bcast_child(my_idx, idx)
+                                                               : remote_dep_bcast_star_child(my_idx, idx);
 #else
                     remote_dep_bcast_child_permits = remote_dep_bcast_star_child(my_idx, idx);
 #endif  /* PARSEC_DIST_COLLECTIVES */
